@@ -18,19 +18,19 @@ SLOTS = """
 HOLE and b|a and HOLE|a and HOLE and c|HOLE or b|a or HOLE|(x := HOLE)
 HOLE + b|a + HOLE|HOLE - b|a - HOLE|HOLE * b|a * HOLE|HOLE @ b|a @ HOLE|HOLE / b|a / HOLE|HOLE // b|a // HOLE|HOLE % b|a % HOLE
 HOLE ** b|a ** HOLE|HOLE << b|a << HOLE|HOLE >> b|a >> HOLE|HOLE & b|a & HOLE|HOLE ^ b|a ^ HOLE|HOLE | b|a | HOLE
--HOLE|+HOLE|~HOLE|not HOLE
+-HOLE|+HOLE|~HOLE|not HOLE|- -HOLE|not not HOLE|-HOLE ** 2|(-HOLE) ** 2|2 ** -HOLE|~-HOLE|HOLE.real|-HOLE.real
 lambda: HOLE|lambda p=HOLE: 0|lambda p, q=HOLE, /, r=1: 0|lambda *, k=HOLE: 0|lambda *a, k=HOLE, **kw: 0|lambda p, *, j, k=HOLE, l: 0|lambda p=1, q=HOLE: 0
 HOLE if b else c|a if HOLE else c|a if b else HOLE
-{HOLE: v}|{k: HOLE}|{**HOLE}|{k: v, **HOLE}|{HOLE}|{a, HOLE}|{*HOLE}|{k: v, HOLE: w}|{k: v, j: HOLE}
+{HOLE: v}|{k: v, **a, HOLE: w}|{**a, k: HOLE}|{**a, **HOLE}|{k: HOLE}|{**HOLE}|{k: v, **HOLE}|{HOLE}|{a, HOLE}|{*HOLE}|{k: v, HOLE: w}|{k: v, j: HOLE}
 [HOLE]|[a, HOLE]|[*HOLE]|(HOLE,)|(a, HOLE)|(*HOLE,)|(HOLE, b)
 [HOLE for i in j]|[e for i in HOLE]|[e for i in j if HOLE]|[e for i in j if c if HOLE]|[e for i in j for k in HOLE]|[e for i in j for k in l if HOLE]
 {HOLE for i in j}|{e for i in HOLE}|{HOLE: v for i in j}|{k: HOLE for i in j}|{k: v for i in HOLE}|{k: v for i in j if HOLE}
 (HOLE for i in j)|(e for i in HOLE)|(e for i in j if HOLE)|(e for i in j for k in HOLE)
 await HOLE|(yield HOLE)|(yield from HOLE)
-HOLE < b|a < HOLE|a < HOLE < c|a < b < HOLE|HOLE is b|a is not HOLE|HOLE in b|a not in HOLE|a == HOLE|HOLE != b|a >= HOLE|HOLE <= b
-HOLE()|f(HOLE)|f(HOLE, b)|f(a, HOLE)|f(*HOLE)|f(a, *HOLE)|f(k=HOLE)|f(**HOLE)|f(a, k=HOLE)|f(k=1, *HOLE)|f(*a, HOLE)|f(k=1, **HOLE)|f(HOLE for i in j)|f(j=1, k=HOLE)|HOLE(a)|HOLE(k=1)
+HOLE < b|a < b == HOLE|a in HOLE not in c|a is HOLE is not c|not HOLE < b|a < HOLE|a < HOLE < c|a < b < HOLE|HOLE is b|a is not HOLE|HOLE in b|a not in HOLE|a == HOLE|HOLE != b|a >= HOLE|HOLE <= b
+HOLE()|f(**HOLE, k=1)|f(**a, k=HOLE)|f(k=1, *HOLE)|f(*a, k=1, *HOLE)|f(**a, **HOLE)|f(a, **b, k=HOLE, **c)|f(HOLE)|f(HOLE, b)|f(a, HOLE)|f(*HOLE)|f(a, *HOLE)|f(k=HOLE)|f(**HOLE)|f(a, k=HOLE)|f(k=1, *HOLE)|f(*a, HOLE)|f(k=1, **HOLE)|f(HOLE for i in j)|f(j=1, k=HOLE)|HOLE(a)|HOLE(k=1)
 f'{HOLE}'|f'{HOLE!r}'|f'{HOLE:>10}'|f'{a:{HOLE}}'|f'{a:x{HOLE}y}'|f'p{HOLE}q{b}'|f'{HOLE!s:>{w}}'|f'{a:{w}{HOLE}}'|f'{HOLE!a}'
-HOLE.attr|HOLE[i]|a[HOLE]|a[HOLE:]|a[:HOLE]|a[::HOLE]|a[HOLE:b:c]|a[b:HOLE:c]|a[b:c:HOLE]|a[HOLE, b]|a[b, HOLE]|a[HOLE,]|a[*HOLE]|a[b:c, HOLE]|a[HOLE:b, c]|a[b, c:HOLE]|a[b, ::HOLE]
+HOLE.attr|HOLE[i]|a[HOLE]|a[HOLE:]|a[:HOLE]|a[::HOLE]|a[HOLE:b:c]|a[HOLE::c]|a[:HOLE:c]|a[::HOLE, b]|a[HOLE:b, c:d]|a[b:c, d:HOLE:e]|a[..., HOLE]|a[b:HOLE:c]|a[b:c:HOLE]|a[HOLE, b]|a[b, HOLE]|a[HOLE,]|a[*HOLE]|a[b:c, HOLE]|a[HOLE:b, c]|a[b, c:HOLE]|a[b, ::HOLE]
 """.replace("\n", "|").strip("|").split("|")
 
 PLUGS = """
@@ -144,7 +144,7 @@ def maximal_expressions(tree):
 
 PAIR_TEMPLATES = ["H1 %s H2" % op for op in ("+", "-", "*", "@", "/", "//", "%", "**", "<<", ">>", "&", "^", "|")] + [
     "H1 and H2", "H1 or H2", "H1 < H2", "H1 in H2", "H1 if H2 else c", "a if H1 else H2", "H1 if b else H2", "H1[H2]",
-    "H1(H2)", "f(H1, k=H2)", "f(*H1, **H2)", "{H1: H2}", "[H1 for i in H2]", "[e for i in H1 if H2]",
+    "H1(H2)", "f(H1, k=H2)", "f(*H1, **H2)", "f(**H1, k=H2)", "f(k=H1, *H2)", "f(**H1, **H2)", "{H1: H2}", "[H1 for i in H2]", "[e for i in H1 if H2]",
     "lambda p=H1: H2", "f'{H1:{H2}}'", "f'{H1!r}{H2}'", "H1[H2:]", "a[H1:H2]", "a[H1, H2]", "(H1, H2)", "(x := H1)[H2]",
     "H1 < b < H2", "-H1 ** H2", "H1.attr(H2)", "{**H1, k: H2}", "not H1 == H2", "await H1 ** H2",
 ]
